@@ -54,7 +54,13 @@ if __name__ == '__main__' and '--worker' in sys.argv:  # -----------------------
                     out.append(['absent'])
             else:
                 _, imod, iqn, ref = op
-                iface = getattr(sys.modules[imod], iqn)
+                try:
+                    iface = sys.modules[imod]
+                    for part in iqn.split('.'):
+                        iface = getattr(iface, part)
+                except (KeyError, AttributeError):
+                    out.append(['noiface'])
+                    continue
                 order = [p.value for p in prov.BANK[iface].paths]
                 try:
                     cls = iface[ref]
@@ -210,6 +216,9 @@ class Numbering:
 
     @staticmethod
     def _k(v):
+        if isinstance(v, (dict, list, tuple)) or is_table(v):
+            # a table or a nested list as an ITEM of a list: one number per equality class (items are compared, never merged)
+            return ('obj', json.dumps(canon(v), sort_keys=True))
         return ('str', v) if isinstance(v, str) else (type(v).__name__, v)
 
     def _code(self, v) -> int:
@@ -218,7 +227,7 @@ class Numbering:
     def seed(self, values):
         uniq = {self._k(v): v for v in values}
         strs = sorted(v for k, v in uniq.items() if k[0] == 'str')
-        nums = sorted((v for k, v in uniq.items() if k[0] != 'str'), key=lambda v: (float(v), type(v).__name__))
+        nums = sorted((v for k, v in uniq.items() if k[0] not in ('str', 'obj')), key=lambda v: (float(v), type(v).__name__))
         for v in strs + nums:
             self._code(v)
 
@@ -304,6 +313,7 @@ KEYS = ['a', 'b', 'c', 'd', 'e', 'path', 'default', 'params']
 GROUP_KEYS = ['RUNNER', 'REGISTRY', 'FEED', 'SINK']
 SECTION_REFS = ['r0', 'r1', 'r2', 'r3']
 LIST_POOL = [2, 3, 4, 5, 'u', 'v', 'w', 2.5, True]
+OBJ_POOL = [{'k': 2}, {'k': 3}, {'k': 2, 'j': 'u'}, {}, [2, 3], [3], [], {'k': [2], 'j': {'i': 4}}]
 
 
 class ConfGen:
@@ -318,6 +328,12 @@ class ConfGen:
     def lst(self):
         r = self.rng
         n = r.choice([0, 1, 2, 2, 3, 4])
+        if r.random() < 0.2:
+            # tables and nested lists as items (unhashable; equal ones occur in several layers and twice in one list)
+            pool = OBJ_POOL + LIST_POOL[:3]
+            out = [json.loads(json.dumps(r.choice(pool))) for _ in range(n)] if r.random() < 0.3 else \
+                [json.loads(json.dumps(x)) for x in r.sample(pool, min(n, len(pool)))]
+            return out
         if r.random() < 0.12:
             out = [r.choice(LIST_POOL) for _ in range(n)]  # may repeat elements
         else:
@@ -453,14 +469,34 @@ class Facts:
         self.abc: list = []
         self.label: list = []  # (module, qualname) for the classinfo job; None = not reported
         self.index: dict = {}  # (module, qualname) -> table index
+        self.ident: list = []  # (module, qualname) of every entry (also of Service / abc.ABC / typing.Generic)
+        self.service: list = []  # a subclass of Service other than Service itself
+        self.root = None  # table index of forml.provider.Service
 
-    def add(self, label, abc: bool, ns: dict, bases: list) -> int:
+    def c3(self, bases: list) -> list:
+        """C3 linearisation of the MRO tail (`object` left out); ValueError when the bases are inconsistent"""
+        seqs = [[b] + list(self.mro[b]) for b in bases] + [list(bases)]
+        out: list = []
+        while True:
+            seqs = [q for q in seqs if q]
+            if not seqs:
+                return out
+            for q in seqs:
+                cand = q[0]
+                if not any(cand in t[1:] for t in seqs):
+                    break
+            else:
+                raise ValueError('inconsistent method resolution order')
+            out.append(cand)
+            for q in seqs:
+                if q[0] == cand:
+                    del q[0]
+
+    def add(self, label, abc: bool, ns: dict, bases: list, ident=None) -> int:
+        if len(set(bases)) != len(bases):
+            raise ValueError('duplicate base class')
         k = len(self.stmts)
-        mro: list = []
-        for b in bases:
-            for x in [b] + self.mro[b]:
-                if x not in mro:
-                    mro.append(x)
+        mro = self.c3(bases)
         enc = []
         for name, v in ns.items():
             enc.append([ATTR[name], ['f', bool(v[1])] if v[0] == 'f' else ['c', v[1]] if v[0] == 'c' else 'o'])
@@ -469,6 +505,8 @@ class Facts:
         self.mro.append(mro)
         self.abc.append(bool(abc) or any(self.abc[b] for b in bases))
         self.label.append(label)
+        self.ident.append(ident or label)
+        self.service.append(any(b == self.root or self.service[b] for b in bases))
         if label is not None:
             self.index[label] = k
         return k
@@ -583,11 +621,16 @@ class Scenario:
 
     def _build(self):
         f = Facts()
-        service = f.add(None, True, {}, [])  # forml.provider.Service (metaclass Meta < ABCMeta), no abstract method
-        abcb = f.add(None, True, {}, [])  # abc.ABC
+        service = f.add(None, True, {}, [], ident=('forml_provider', 'Service'))  # metaclass Meta < ABCMeta, no abstract method
+        f.root = service
+        abcb = f.add(None, True, {}, [], ident=('abc', 'ABC'))
+        generic = f.add(None, False, {}, [], ident=('typing', 'Generic'))
         part0 = f.add((IFC, '_Part'), False, {'work': ('f', True)}, [abcb])
         extra0 = f.add((IFC, 'Extra_'), False, {'extra': ('f', True)}, [abcb])
+        plain0 = f.add((IFC, 'Plain_'), False, {}, [])  # a plain mixin
+        tool0 = f.add((IFC, 'Tool_'), False, {}, [abcb])  # an ABC mixin without abstract methods
         self._part0, self._extra0 = part0, extra0
+        tokens = {'Extra_': extra0, 'Plain_': plain0, 'Tool_': tool0, 'Generic': generic}
         out = []
         env: dict = {}  # class name visible in a module -> (module, clsdict, table index, ancestors)
 
@@ -622,9 +665,14 @@ class Scenario:
                 else:
                     raise ValueError(part)
                 ns['Part'] = ('c', pk)
-            bases = ([extra0] if extra == 'mixin' else []) + [bidx]
+            def tok(t):
+                return scope['Side'][2] if t == 'Side' else tokens[t]
+
+            bases = ([extra0] if extra == 'mixin' else []) + [tok(t) for t in c.get('pre') or []] + [bidx] \
+                + [tok(t) for t in c.get('post') or []]
             k = f.add((mod, c['name']), False, ns, bases)
-            anc = ([(base[0], base[1]['name'])] + base[3]) if base else []
+            # every Service ancestor of the MRO (whatever stands between), in MRO order
+            anc = [f.ident[x] for x in f.mro[k] if f.service[x]]
             entry = (mod, c, k, anc)
             scope[c['name']] = entry
             out.append((mod, c, f.abstract(k), anc))
@@ -635,8 +683,11 @@ class Scenario:
                  'part': 'assigned' if kind in ('inner', 'both') else None, 'extra': None, 'paths': self.base_paths}
         midc = {'name': 'Mid', 'base': 'Base', 'alias': None, 'run': None, 'extra': 'method' if mid == 'extra' else None,
                 'part': 'still' if mid == 'still' else None, 'paths': self.mid_paths}
+        sidec = {'name': 'Side', 'base': None, 'alias': None, 'run': 'abstract', 'part': None, 'extra': None,
+                 'paths': self.ifc.get('side_paths') or []}
         define(IFC, basec, env)
         define(IFC, midc, env)
+        define(IFC, sidec, env)  # a second interface: providers may derive from several
         for pkg, pd in self.packages.items():
             for sub, clss in pd['mods'].items():
                 mod = f'{pkg}.{sub}' if sub else pkg
@@ -656,7 +707,12 @@ class Scenario:
             return s
 
         base = c['base'] or 'provider.Service'
-        bases = f'Extra_, {base}' if c.get('extra') == 'mixin' else base
+
+        def expr(t):
+            return 'typing.Generic[T]' if t == 'Generic' else t
+
+        bases = ', '.join((['Extra_'] if c.get('extra') == 'mixin' else []) + [expr(t) for t in c.get('pre') or []] + [base]
+                          + [expr(t) for t in c.get('post') or []])
         src = f"class {c['name'].split('.')[-1]}({bases}{kw()}):\n"
         body = ''
         if c.get('run') == 'impl':
@@ -699,7 +755,9 @@ class Scenario:
                     return bool(r and r[0] == 'c')
             return False
 
-        head = ('import abc\nfrom forml import provider\n\n'
+        head = ('import abc\nimport typing\nfrom forml import provider\n\nT = typing.TypeVar(\'T\')\n\n'
+                'class Plain_:\n    def helper(self):\n        return 1\n\n'
+                'class Tool_(abc.ABC):\n    def tool(self):\n        return 2\n\n'
                 'class _Part(abc.ABC):\n    @abc.abstractmethod\n    def work(self):\n        """component"""\n\n'
                 'class Extra_(abc.ABC):\n    @abc.abstractmethod\n    def extra(self):\n        """more"""\n\n')
         with open(os.path.join(root, f'{IFC}.py'), 'w') as fh:
@@ -708,7 +766,7 @@ class Scenario:
             os.makedirs(os.path.join(root, pkg), exist_ok=True)
 
             def render(mod, clss):
-                src = f'import abc\nfrom {IFC} import Base, Mid, _Part, Extra_\n\n'
+                src = f'import abc\nimport typing\nfrom {IFC} import Base, Mid, Side, _Part, Extra_, Plain_, Tool_, T\n\n'
                 open_ns = None
                 for c in clss:
                     text = self.render_class(c, has_part(mod, c))
@@ -772,7 +830,9 @@ def scenario_world(sc: Scenario, names: Names):
     for mod, c, _, anc in sc.classes():
         for _ in range(c.get('factory') or 1):
             mods[mod]['classes'].append([names.mod(mod), names.n(c['name']), names.n(c['alias']) if c.get('alias') else None,
-                                         f.index[(mod, c['name'])], [[names.mod(m), names.n(q)] for m, q in anc],
+                                         f.index[(mod, c['name'])],
+                                         [[[names.mod(f.ident[x][0]), names.n(f.ident[x][1])], bool(f.service[x])]
+                                          for x in f.mro[f.index[(mod, c['name'])]]],
                                          [names.mod(p) for p in c.get('paths') or []]])
     return [[names.mod(m), [names.n(s) for s in d['subs']], d['classes']] for m, d in mods.items()]
 
@@ -812,6 +872,31 @@ class ScenGen:
         c['extra'] = r.choice([None, None, None, None, 'method', 'prop', 'mixin', 'impl'])
         return c
 
+    MIXINS = ['Plain_', 'Tool_', 'Generic', 'Side', 'Side', 'Extra_']
+
+    def mixins(self, c, out, sc_probe, mod):
+        """further bases at any position: plain classes, ABCs, typing.Generic, an abstract mixin, a second interface
+        (`Side`) — before (`pre`) or after (`post`) the base the class derives from; dropped again when the bases are
+        inconsistent (no C3 linearisation)"""
+        r = self.rng
+        if r.random() >= 0.4:
+            return
+        used, b = set(), c.get('base')
+        while b not in (None, 'Base', 'Mid'):  # what the local ancestors mix in already
+            anc = next(x for x in out if x['name'] == b)
+            used |= set(anc.get('pre') or []) | set(anc.get('post') or []) | ({'Extra_'} if anc.get('extra') == 'mixin' else set())
+            b = anc.get('base')
+        picks = [t for t in dedupe(r.sample(self.MIXINS, r.choice([1, 1, 2]))) if t not in used]
+        if c.get('extra') == 'mixin':
+            picks = [t for t in picks if t != 'Extra_']
+        trial = dict(c, pre=[t for t in picks if r.random() < 0.6])
+        trial['post'] = [t for t in picks if t not in trial['pre']]
+        try:
+            sc_probe(mod, out + [trial])
+        except ValueError:
+            return
+        c['pre'], c['post'] = trial['pre'], trial['post']
+
     def module_classes(self, sc_probe, mod, aliases_free, want_alias=None):
         """1..3 classes for one module deriving from Base / Mid / an earlier class of the module. `sc_probe(clss)` tells
         which of them are abstract (the scenario's own rule); only concrete classes get an alias."""
@@ -822,8 +907,18 @@ class ScenGen:
             base = r.choice(['Base', 'Mid'] + [c['name'] for c in out if not c.get('factory')])
             want = i == 0 and want_alias is not None
             c = {'name': names[i], 'base': base, 'alias': None}
+            self.mixins(c, out, sc_probe, mod)
             for attempt in range(8):
                 c.update(self.shape(want or r.random() < 0.55, True))
+                if 'Extra_' in (c.get('pre') or []) + (c.get('post') or []) and c['extra'] in ('mixin', None) and (
+                        want or r.random() < 0.6):
+                    c['extra'] = 'impl'  # the mixin's abstract method implemented
+                if c['extra'] == 'mixin' and (c.get('pre') or c.get('post')):
+                    c['extra'] = None
+                try:
+                    sc_probe(mod, out + [c])
+                except ValueError:  # bases without a C3 linearisation (the same mixin ahead of a class that has it)
+                    c.update({'pre': [], 'post': [], 'extra': None if c['extra'] == 'mixin' else c['extra']})
                 if not want or not sc_probe(mod, out + [c])[-1]:
                     break
             abstract = sc_probe(mod, out + [c])[-1]
@@ -838,7 +933,10 @@ class ScenGen:
             # `Development.Node`): same module, same __name__, different __qualname__
             for ns in ('Production', 'Development'):
                 c = {'name': f'{ns}.Node', 'ns': ns, 'base': r.choice(['Base', 'Mid']), 'alias': None}
+                self.mixins(c, out, sc_probe, mod)
                 c.update(self.shape(r.random() < 0.7, True))
+                if c['extra'] == 'mixin' and (c.get('pre') or c.get('post')):
+                    c['extra'] = 'impl'
                 if not sc_probe(mod, out + [c])[-1] and aliases_free and r.random() < 0.6:
                     c['alias'] = aliases_free.pop()
                 out.append(c)
@@ -971,15 +1069,26 @@ class ScenGen:
         r.shuffle(base_paths)
         ifc['base_paths'] = base_paths
         ifc['mid_paths'] = [pkgs[-1]] if r.random() < 0.2 else []
+        ifc['side_paths'] = [r.choice(pkgs)] if (lazy and r.random() < 0.4) else []
         sc = Scenario(ifc, packages, [] if lazy else modules, [], kind)
         if kind == 'clean-lazy' and r.random() < 0.5:
             # partially pre-imported (1..3 modules, every order): explicit imports interleaved with lazy discovery
             sc.imports = r.sample(modules, min(len(modules), r.choice([1, 2, 3])))
         # queries: every alias and every qualified name against Base and Mid, plus unknown references
         qs = []
-        for mod, c, abstract, _ in sc.classes():
+        for mod, c, abstract, anc in sc.classes():
             if mod == IFC:
                 continue
+            # through every Service ancestor of the MRO (interfaces and classes of the module alike) the alias and the
+            # qualified name resolve to the same class
+            for amod, aname in anc:
+                if '<locals>' in aname:
+                    continue
+                tok = aname if amod == IFC else f'{amod}:{aname}'
+                if c.get('alias') and r.random() < 0.5:
+                    qs.append((tok, c['alias']))
+                if r.random() < 0.35:
+                    qs.append((tok, f"{mod}:{c['name']}"))
             if c.get('alias'):
                 qs.append(('Base', c['alias']))
                 if r.random() < 0.5:
@@ -1000,8 +1109,8 @@ class ScenGen:
         if nested:
             # asked twice in a row, before anything else has imported the declaring package
             qs = [('Base', nested), ('Base', nested)] + [q for q in qs if q != ('Base', nested)]
-        qs = qs[:9] + [('Base', f'{IFC}:Base'), (r.choice(['Base', 'Mid']), f'{IFC}:Mid')]
-        qs += [('Base', 'nosuch'), ('Base', 'pk0.foo:Nosuch'), ('Mid', 'nomod:Impl')]
+        qs = qs[:12] + [('Base', f'{IFC}:Base'), (r.choice(['Base', 'Mid']), f'{IFC}:Mid'), ('Side', f'{IFC}:Side')]
+        qs += [('Base', 'nosuch'), ('Base', 'pk0.foo:Nosuch'), ('Mid', 'nomod:Impl'), ('Side', 'nosuch')]
         if kind != 'preload':
             qs += self.near_misses(sc)
         sc.history = [['import', i] for i in range(len(sc.imports))] + [['get', i, q] for i, q in qs]
@@ -1062,7 +1171,7 @@ class ScenGen:
             if c.get('alias'):
                 cand += [c['alias'].upper(), c['alias'][:-1], c['alias'] + 'x']
         cand = [x for x in dedupe(cand) if x and x not in aliases and x not in quals]
-        return [(r.choice(['Base', 'Base', 'Mid']), x) for x in r.sample(cand, min(3, len(cand)))]
+        return [(r.choice(['Base', 'Base', 'Mid', 'Side']), x) for x in r.sample(cand, min(3, len(cand)))]
 
 
 def spawn_workers(jobs: list, seeds: list, timeout: int = 800):
@@ -1100,7 +1209,8 @@ class C20(fw.Check):
     LEAN_MODULES = ['ForML.Props.C20']
     DRIVER = 'drv_c20'
     RULE = ('Config: stacks of 1..4 random nested mappings (depth <= 4; scalars int/str/bool/float, lists and tuples '
-            'with and without repeated elements, tables; a key keeps its kind across sources with probability 0.7..1.0, '
+            'with and without repeated elements - a fifth of them with tables and nested lists as items, equal ones in '
+            'several layers -, tables; a key keeps its kind across sources with probability 0.7..1.0, '
             'otherwise it flips) fed to the real Config through update, update(other, **kw), TOML files + read (incl. a '
             'missing file) and defaults + read; distinct by (sources, via), non-trivial when >= 2 sources share a key. '
             'Sections: [RUNNER]/[REGISTRY] groups with default / provider / params resolved through setup.Runner/Registry; '
@@ -1112,7 +1222,10 @@ class C20(fw.Check):
             'it implements / declares abstract / inherits `run`, an extra abstract method, property or mixin and an inner class '
             '(new abstract, assigned abstract, concrete override, still-abstract override, plain non-ABC); pairs of provider '
             'classes with one bare name nested in two namespace classes, classes made by a factory function called once or '
-            'twice (same qualname, new class object), equal qualnames in different modules; the interface is '
+            'twice (same qualname, new class object), equal qualnames in different modules; 40 % of the classes with further '
+            'bases before / after the one they derive from: a plain class, an ABC, typing.Generic[T], an abstract mixin, a '
+            'second interface (diamonds); look-ups through every Service ancestor of the MRO, classes of the module '
+            'included; the interface is '
             'abstract through a method, through an inner class only, or both; aliases, qualified names, __all__ lists with '
             'ghosts) of kinds clean-explicit, collision-explicit (an alias defined in two modules and an alias claimed by two nested '
             'classes with one bare name in one module), abstract-alias (one class abstract in the extended sense '
@@ -1133,8 +1246,10 @@ class C20(fw.Check):
         'the iteration order observed in the real process is only checked to be a permutation of the model\'s path set',
         'os.fork children of one interpreter per hash seed stand for fresh processes (forml imported, nothing else)',
     ]
-    ASSUMPTIONS = ['list elements are scalars (TOML arrays of tables are not generated)',
-                   'one optional mixin beside single inheritance below the provider interface; module names have at most two '
+    ASSUMPTIONS = ['items of a list (scalars, tables, nested lists) are compared by equality and never merged; nested list '
+                   'items are lists (not tuples); the model numbers an item by its equality class',
+                   'C3 linearisation of the generated bases (mixins at any position, several interfaces) is computed by the '
+                   'harness and compared with the real __mro__; module names have at most two '
                    'components; module bodies are class statements (import edges between provider modules are not modelled)',
                    'scalars of different Python types that compare equal (1 == True == 1.0) are not mixed in one case',
                    'section references are non-empty strings, feed priorities plain numbers; ill-formed configurations (a '
@@ -1354,6 +1469,9 @@ class C20(fw.Check):
                           f'conf n={len(eff)} via={via} {depth_flip}{" groups" if groups else ""}', nontrivial=shared,
                           sample={'sources': canon(eff), 'via': via, 'result': impl} if idx in (1, 4, 12) else None)
                 sect = msect = None
+                if isinstance(impl, tuple):  # a stack of well-formed sources is layered, it never aborts
+                    self.violate(f'Config stack ({via}) raised {impl[1]}', {'kind': 'conf', 'raw': self._jsonable(eff), 'via': via},
+                                 'conf-raises')
                 if isinstance(impl, dict) and len(eff) == 3 and via == 'update':
                     self._assoc(eff, impl, depth_flip == 'flip')
                 if isinstance(impl, dict):
@@ -1515,7 +1633,7 @@ class C20(fw.Check):
             elif op[0] == 'reload':
                 ops.append(['reload', op[1]])
             else:
-                ops.append(['get', IFC, op[1], op[2]])
+                ops.append(['get', *(op[1].split(':', 1) if ':' in op[1] else (IFC, op[1])), op[2]])
         return ops
 
     @staticmethod
@@ -1620,7 +1738,7 @@ class C20(fw.Check):
                                                               if m == op[1] and '.' not in c['name']]])
                 else:
                     mops.append(['get', [names.mod(op[1]), names.n(op[2])], ref_sexp(op[3], names),
-                                 [names.mod(v) for v in r[-1]]])
+                                 [names.mod(v) for v in r[-1]] if r[0] != 'noiface' else []])
             return ['bankt', sc.facts().stmts, world, mops]
 
         collect = Names()
@@ -1636,6 +1754,8 @@ class C20(fw.Check):
                 out.append(r[0] if r[0] != 'err' else ['err', r[1]])
             elif r[0] == 'ok':
                 out.append(['ok', [names.mod(r[1]), names.n(r[2])]])
+            elif r[0] == 'noiface':
+                out.append('noiface')
             else:
                 out.append(['err', r[1]])
         return out
@@ -1658,7 +1778,11 @@ class C20(fw.Check):
         runs = [(order, seed, ops, results)]; singles = {(order, seed, key): (ops, result)} = every lookup asked at once"""
         classes = {(mod, c['name']): (c, abstract) for mod, c, abstract, _ in sc.classes()}
         ancestors = {(mod, c['name']): anc for mod, c, _, anc in sc.classes()}
-        search = {'Base': set(sc.base_paths) | set(sc.mid_paths), 'Mid': set(sc.mid_paths)}  # path= seen by each bank
+        # path= seen by each bank (a class's search paths go to its own bank and to the bank of every Service ancestor)
+        search = {(IFC, 'Base'): set(sc.base_paths) | set(sc.mid_paths), (IFC, 'Mid'): set(sc.mid_paths),
+                  (IFC, 'Side'): set(sc.ifc.get('side_paths') or [])}
+        for key in ancestors:
+            search.setdefault(key, set())
         # … and the search paths declared by classes that a search of those packages discovers (package __init__ or a
         # module listed in __all__), transitively: the repaired Bank.get searches them in the same lookup
         for iname, found_pkgs in search.items():
@@ -1666,7 +1790,7 @@ class C20(fw.Check):
             while grew:
                 grew = False
                 for mod, c, _, anc in sc.classes():
-                    if mod == IFC or not c.get('paths') or (IFC, iname) not in anc:
+                    if mod == IFC or not c.get('paths') or iname not in anc:
                         continue
                     pkg, _, sub = mod.partition('.')
                     allv = sc.packages.get(pkg, {}).get('all')
@@ -1705,7 +1829,10 @@ class C20(fw.Check):
                 if op[0] != 'get':
                     continue
                 qi += 1
-                iface, ref = op[2], op[3]
+                iface, ref = (op[2] if op[1] == IFC else f'{op[1]}:{op[2]}'), op[3]
+                ikey = (op[1], op[2])
+                if r[0] == 'noiface':  # the interface's module is not imported: nothing was asked
+                    continue
                 before = [o[1] for o in ops[1:k] if o[0] == 'import']  # explicit imports executed before this lookup
                 hist = dict(witness, order=order, seeds=[seed], at=k)
                 if r[0] == 'ok':
@@ -1747,12 +1874,12 @@ class C20(fw.Check):
                 carriers = by_alias.get(ref, []) if ':' not in ref else [tuple(ref.split(':', 1))]
                 carriers = [k2 for k2 in carriers if k2 in classes and not classes[k2][1]]
                 if (len(carriers) == 1 and not defective and not rejected and sc.kind != 'preload' and r[0] != 'ok'
-                        and (IFC, iface) in ancestors[carriers[0]]):
+                        and ikey in ancestors[carriers[0]]):
                     cmod = carriers[0][0]
                     pkg, _, sub = cmod.partition('.')
                     allv = sc.packages.get(pkg, {}).get('all')
-                    if (cmod in before or ':' in ref or (sub == ref and pkg in search[iface])
-                            or (pkg in search[iface] and (sub == '' or (allv is not None and sub in allv)))):
+                    if (cmod in before or ':' in ref or (sub == ref and pkg in search.get(ikey, set()))
+                            or (pkg in search.get(ikey, set()) and (sub == '' or (allv is not None and sub in allv)))):
                         self.violate(f'{iface}[{ref!r}] raised {r[1]} although {cmod}:{carriers[0][1]} carries the reference '
                                      f'and is {"imported" if cmod in before else "discoverable"}', hist,
                                      'registered-provider-not-found')
@@ -1791,7 +1918,7 @@ class C20(fw.Check):
         f = sc.facts()
         model = sexp.loads(ans)
         inv = {v: k for k, v in ATTR.items()}
-        qual = {k: (lab[1] if lab else ('Service' if k == 0 else 'ABC')) for k, lab in enumerate(f.label)}
+        qual = {k: idn[1] for k, idn in enumerate(f.ident)}
         for seed, (ops, results) in info.items():
             for op, r in zip(ops, results):
                 if op[0] != 'classinfo' or r[0] != 'cls':
@@ -2024,11 +2151,22 @@ class C20(fw.Check):
                 for i, src in enumerate(cur):
                     for k in src:
                         cands.append([dict((a, b) for a, b in x.items() if not (j == i and a == k)) for j, x in enumerate(cur)])
+                        if is_list(src[k]):
+                            for n in range(len(src[k])):
+                                c = [dict(x) for x in cur]
+                                c[i][k] = type(src[k])(list(src[k])[:n] + list(src[k])[n + 1:])
+                                cands.append(c)
                         if is_table(src[k]):
                             for k2 in src[k]:
                                 c = [dict(x) for x in cur]
                                 c[i][k] = {a: b for a, b in src[k].items() if a != k2}
                                 cands.append(c)
+                                if is_list(src[k][k2]):
+                                    for n in range(len(src[k][k2])):
+                                        c = [dict(x) for x in cur]
+                                        c[i][k] = dict(src[k])
+                                        c[i][k][k2] = type(src[k][k2])(list(src[k][k2])[:n] + list(src[k][k2])[n + 1:])
+                                        cands.append(c)
                                 if is_table(src[k][k2]):
                                     for k3 in src[k][k2]:
                                         c = [dict(x) for x in cur]
@@ -2058,7 +2196,7 @@ class C20(fw.Check):
                     self.violations[idx] = self._shrink_bank(x)
                 except fw.MachineryError:
                     pass
-            elif isinstance(x.witness, dict) and x.witness.get('kind') in ('multi', 'section'):
+            elif isinstance(x.witness, dict) and x.witness.get('kind') in ('multi', 'section', 'conf'):
                 self.violations[idx] = self._shrink_sections(x)
 
     def correspondence(self):
@@ -2160,7 +2298,7 @@ class C20(fw.Check):
                 eff = self._unjson(w['raw'])
                 impl, spec, dupes, _, _ = self._conf_eval(eff, w['via'], tmp)
                 if isinstance(impl, tuple):
-                    return fw.Violation(f'Config raised {impl[1]}', w, 'conf-raises')
+                    return fw.Violation(f'Config stack ({w["via"]}) raised {impl[1]} (a stack of well-formed sources is layered, it never aborts)', w, 'conf-raises')
                 d = conf_diff(impl, spec, dupes)
                 if d:
                     return fw.Violation(f'Config stack ({w["via"]}): at {"/".join(d[1])}: {d[2]}', w, d[0])
